@@ -139,6 +139,14 @@ Definition prop_send (h : addr) accts dens (p : obs) (ts : list (addr * addr * c
                                            =? ocoins (okey r) (o_recs p) d + expected_rec_delta h p ts (okey r) d) dens)
                   (o_recs o))
       "prop:quarantined_amount_not_recorded" ++
+  (* ... and the record that received a quarantined amount names its sender among its senders *)
+  tag (forallb (fun t => let '(from, to, _) := t in
+                  negb (quarantined h p from to) ||
+                  match ofind (mk_key to [from]) (o_recs o) with
+                  | Some r => mem from (r_unacc r ++ r_acc r)
+                  | None => true
+                  end) ts)
+      "prop:quarantined_funds_recorded_under_another_sender" ++
   tag (same_settings accts p o) "prop:send_changed_settings".
 
 (* Accept(to, froms): records to [to] that name an unaccepted sender lose those senders; a record
